@@ -187,6 +187,35 @@ type c03Oracle struct {
 	}
 }
 
+// c03ShapeOK: does the payload decode into the hub's claims structure (mercure: absent, null or an object whose publish /
+// subscribe members are absent, null or lists of strings)
+func c03ShapeOK(pl map[string]any) bool {
+	m, present := pl["mercure"]
+	if !present || m == nil {
+		return true
+	}
+	mm, ok := m.(map[string]any)
+	if !ok {
+		return false
+	}
+	for _, k := range []string{"publish", "subscribe"} {
+		v, p := mm[k]
+		if !p || v == nil {
+			continue
+		}
+		l, ok := v.([]any)
+		if !ok {
+			return false
+		}
+		for _, e := range l {
+			if _, ok := e.(string); !ok && e != nil {
+				return false
+			}
+		}
+	}
+	return true
+}
+
 func strictB64(s string) *string {
 	b, err := base64.RawURLEncoding.Strict().DecodeString(s)
 	if err != nil {
@@ -229,6 +258,21 @@ func runC03(a args) error {
 			}
 			for n := 0; n < perKey; n++ {
 				claims := map[string]any{"mercure": map[string]any{"publish": []string{"*"}, "subscribe": []string{"*"}}}
+				// one draw in five: a mercure claim of a shape the hub's claims structure cannot hold (the payload does not decode:
+				// the token is invalid whatever its signature)
+				shape := "object"
+				if n >= 18 && r.Chance(0.2) {
+					shapes := []struct {
+						name string
+						v    any
+					}{{"empty-list", []any{}}, {"string", "admin"}, {"number", 7}, {"list-of-selectors", []string{"*"}}, {"true", true},
+						{"publish-is-a-string", map[string]any{"publish": "*", "subscribe": []string{"*"}}},
+						{"subscribe-is-an-object", map[string]any{"publish": []string{"*"}, "subscribe": map[string]any{}}},
+						{"publish-holds-a-number", map[string]any{"publish": []any{1}, "subscribe": []string{"*"}}}}
+					sh := shapes[r.Intn(len(shapes))]
+					shape = sh.name
+					claims["mercure"] = sh.v
+				}
 				offset := []int64{0, 0, 3600, -3600, 2, -2}[r.Intn(6)]
 				kind := r.Intn(3)
 				// the first 18 draws of every hub are systematic: a token correctly signed for the endpoint's role but expired
@@ -263,7 +307,7 @@ func runC03(a args) error {
 				muts := c03Mutants(r, issuer, valid, claims, []c03Key{keys[(ki+2)%len(keys)], keys[(ki+3)%len(keys)]})
 				// one mutant per token draw, plus the valid one now and then
 				m := muts[r.Intn(len(muts))]
-				if n%6 == 0 {
+				if n%6 == 0 || (shape != "object" && r.Chance(0.5)) {
 					m = muts[0]
 				}
 				endpoint := []string{"publish", "subscribe", "subscriptions"}[r.Intn(3)]
@@ -352,7 +396,7 @@ func runC03(a args) error {
 					}
 					if pj := strictB64(segs[1]); pj != nil {
 						var pl map[string]any
-						if json.Unmarshal([]byte(*pj), &pl) == nil {
+						if json.Unmarshal([]byte(*pj), &pl) == nil && c03ShapeOK(pl) {
 							num := func(key string) string {
 								if v, ok := pl[key].(float64); ok {
 									return fmt.Sprintf("(Some (%d)%%Z)", int64(v))
@@ -366,9 +410,9 @@ func runC03(a args) error {
 				granted := status >= 200 && status < 300
 				term := fmt.Sprintf("{| jw_cfg_alg := %s; jw_now := (%d)%%Z; jw_token := %s; jw_b64 := %s; jw_alg := %s; jw_claims := %s; jw_known := %s; jw_sig_ok := %s; jw_granted := %s |}",
 					ce.Str(role.alg), reqAt.Unix(), ce.Str(m.tok), ce.List(b64T), algT, claimsT, ce.Bool(known), ce.Bool(sigOK), ce.Bool(granted))
-				out.Add(term, map[string]any{"publisher_alg": k.alg, "subscriber_alg": other.alg, "token_issued_with": issuer.alg, "anonymous": anonymous, "mutation": m.name, "endpoint": endpoint, "carrier": carrier, "status": status, "exp_or_nbf_offset": offset,
+				out.Add(term, map[string]any{"publisher_alg": k.alg, "subscriber_alg": other.alg, "token_issued_with": issuer.alg, "anonymous": anonymous, "mutation": m.name, "endpoint": endpoint, "carrier": carrier, "status": status, "exp_or_nbf_offset": offset, "mercure_claim_shape": shape,
 					"independent_verifier": map[string]any{"signature_ok": sigOK, "alg_known": known}},
-					m.name != "valid" || issuer.alg != role.alg, "role-alg:"+role.alg, fmt.Sprintf("issued-for-this-role:%v", issuer.alg == role.alg), "mutation:"+m.name, "endpoint:"+endpoint, "carrier:"+carrier, fmt.Sprintf("same-alg-other-key:%v", kv%2 == 1), fmt.Sprintf("status:%d", status), fmt.Sprintf("anonymous:%v", anonymous))
+					m.name != "valid" || issuer.alg != role.alg || shape != "object", "role-alg:"+role.alg, "claim-shape:"+shape, fmt.Sprintf("issued-for-this-role:%v", issuer.alg == role.alg), "mutation:"+m.name, "endpoint:"+endpoint, "carrier:"+carrier, fmt.Sprintf("same-alg-other-key:%v", kv%2 == 1), fmt.Sprintf("status:%d", status), fmt.Sprintf("anonymous:%v", anonymous))
 			}
 			_ = hub.Stop()
 		}
